@@ -4,7 +4,7 @@ distinct figures per mapping, optional smaps lines on/off, roll-up present / abs
 refused; reference = sums over the mapping list."""
 import itertools
 
-from vf.harness import use_world, outcome, freeze, sample, guarded
+from vf.harness import use_world, outcome, freeze, sample, guarded, add_histories, history_of
 from vf.simk.world import World, Mapping, PAGESIZE, SMAPS_KEYS
 
 ID = "C13"
@@ -175,26 +175,27 @@ def run(ctx):
     cases = build_cases(ctx.thorough)
     n = max(1, len(cases) // (ctx.ncpu * 4))
     chunks = [(ctx.seed, cases[i:i + n]) for i in range(0, len(cases), n)]
-    res = [r for ch in ctx.pmap(worker, chunks, chunk=1) for r in ch]
+    res = [r for ch in ctx.pmap_fresh(worker, chunks) for r in ch]
     viols, kinds = [], {}
-    for c, bad in zip(cases, res):
+    for _i, (c, bad) in enumerate(zip(cases, res)):
         kinds[c[0]] = kinds.get(c[0], 0) + 1
         for cause, msg in bad:
-            viols.append({"cause": cause, "msg": msg, "case": list(c)})
+            viols.append({"cause": cause, "msg": msg, "case": list(c), "_idx": _i})
     cov = {"evaluations": len(cases), "distinct_nontrivial": len({repr(c) for c in cases}),
            "rule": "one evaluation = one statm record / mapping list (paths x optional lines x roll-up mode) / memory_percent argument "
                    "rendered by simk and read through memory_info, memory_full_info, memory_maps(both forms), memory_percent; "
                    "distinct by construction",
            "per_dimension": kinds, "exhaustive": True, "samples": [list(c) for c in sample(cases, 6)],
            "bounds": "all lists of <= %d mappings over %d paths x 3 roll-up modes; all subsets of %d optional lines" % (4 if ctx.thorough else 2, len(PATHS), len(OPTS))}
-    return {"coverage": cov, "violations": viols, "assumptions": ["smaps rendered like fs/proc/task_mmu.c show_smap(); roll-up = field-wise sums"]}
+    return {"coverage": cov, "violations": add_histories(viols, cases, n, list), "assumptions": ["smaps rendered like fs/proc/task_mmu.c show_smap(); roll-up = field-wise sums"]}
 
 
 def replay(ctx, case):
     w, p = mk_world(ctx.seed)
     use_world(w)
-    c = tuple(case)
-    if c[0] == "maps":
-        c = (c[0], c[1], c[2], tuple(c[3]), c[4])
-    bad = guarded(run_case, c, (w, p))
+    for c in history_of(case):
+        c = tuple(c)
+        if c[0] == "maps":
+            c = (c[0], c[1], c[2], tuple(c[3]), c[4])
+        bad = guarded(run_case, c, (w, p))
     return {"violated": bool(bad), "viols": bad}
